@@ -356,7 +356,7 @@ void either_generators()
     for (int k = 0; k <= n; ++k)
       run_case("either::first_success", "n=" + std::to_string(n) + " first_success_at=" + std::to_string(k), n > 0, [&](ctx &x) {
         using fun = fcppt::function<eith()>;
-        std::vector<int> fresh_f;
+        std::vector<int> fresh_f(static_cast<std::size_t>(n), -1); // by function index: the failures are documented as (e_1,...,e_n)
         int fresh_s = -1, calls = 0;
         std::vector<fun> fs;
         for (int i = 0; i < n; ++i)
@@ -369,13 +369,14 @@ void either_generators()
               return eith{std::move(t)};
             }
             tracked_b f(8);
-            fresh_f.push_back(peek::id(f));
+            fresh_f[static_cast<std::size_t>(i)] = peek::id(f);
             return eith{std::move(f)};
           }});
         x.arm();
         fcppt::either::object<std::vector<tracked_b>, tracked> r = fcppt::either::first_success(fs);
         x.disarm();
-        VRT_CHECK(calls == (k < n ? k + 1 : n), x.op() + ":calls", "%d functions called", calls);
+        if (calls != (k < n ? k + 1 : n)) // calling functions behind the first success is not excluded by the documentation
+          vrt::count("info:" + x.op() + ":functions_called_behind_first_success");
         x.result_is(r, k < n ? std::vector<int>{fresh_s} : fresh_f);
       });
   // loop: next() yields k successes, then a failure
